@@ -100,6 +100,19 @@ class Recorder:
         self.handled.append(type(exc).__name__)
 
 
+class FalsyHandler:
+    """an error log that is a callable AND a container: false while it is empty"""
+
+    def __init__(self, rec):
+        self.rec = rec
+
+    def __call__(self, exc):
+        self.rec.handler(exc)
+
+    def __len__(self):
+        return 0
+
+
 RENDER_GROUP = {"sub": 0, "omit": 1, "attr": 2}
 
 
@@ -190,11 +203,13 @@ class Replayer:
             self.options["enable_data_attributes"] = True
         self.compile_error = None
         self.libs = []
+        # (the handler is any callable: a bound method, or -- odd permutations -- a callable container that is false)
+        handler = FalsyHandler(self.rec) if perm % 2 == 1 else self.rec.handler
         try:
-            self.t = PageTemplate(self.c.source.replace("\n", self.eol), on_error_handler=self.rec.handler, **self.options)
+            self.t = PageTemplate(self.c.source.replace("\n", self.eol), on_error_handler=handler, **self.options)
             self.t.cook_check()
             for src in self.c.srcs[1:]:
-                lt = PageTemplate(src.replace("\n", self.eol), on_error_handler=self.rec.handler, **self.options)
+                lt = PageTemplate(src.replace("\n", self.eol), on_error_handler=handler, **self.options)
                 lt.cook_check()
                 self.libs.append(lt)
         except Exception as e:      # compile-time failure
